@@ -62,21 +62,21 @@ structure Inv (cfg : Cfg) (s : State) : Prop where
   idxLe : s.idx ≤ cfg.jobs.length
   idxLt : (s.dpc = .acquired ∨ s.dpc = .added) → s.idx < cfg.jobs.length
   idxEq : s.dpc = .finalRecv → s.idx = cfg.jobs.length
-  wok : ∀ k w, s.workers[k]? = some w → WOk cfg k w
+  wok : ∀ (k : Nat) (w : Worker), s.workers[k]? = some w → WOk cfg k w
   proc : s.processing = sumW relC s.workers + (if s.dpc = .acquired ∨ s.dpc = .added then 1 else 0)
   wgc : s.wg = sumW doneC s.workers + (if s.dpc = .added then 1 else 0)
   errsCnt : s.errs.length + sumW sendC s.workers ≤ s.idx
   errsGen : ∀ e ∈ s.errs, e < s.idx ∧ cfg.jobFails e = true
   errRecvGen : ∀ e, s.dpc = .errRecv e → e < s.idx ∧ cfg.jobFails e = true
   notLost : (s.dpc = .loop ∨ s.dpc = .acquired ∨ s.dpc = .added ∨ s.dpc = .finalRecv) →
-    ∀ k w, s.workers[k]? = some w → w.failed = true → sendC w = 0 → k ∈ s.errs
+    ∀ (k : Nat) (w : Worker), s.workers[k]? = some w → w.failed = true → sendC w = 0 → k ∈ s.errs
   wrNodup : (s.written.map (·.1)).Nodup
   wrOwn : ∀ x ∈ s.written, ∃ c0, cfg.jobs[x.1]? = some (x.2.1, c0) ∧ x.2.2 = cfg.ppf x.2.1 c0
-  wrIff : ∀ k w, s.workers[k]? = some w → (k ∈ s.written.map (·.1) ↔ wroteB w = true)
+  wrIff : ∀ (k : Nat) (w : Worker), s.workers[k]? = some w → (k ∈ s.written.map (·.1) ↔ wroteB w = true)
   wrLt : ∀ x ∈ s.written, x.1 < s.idx
   retNone : s.ret = none ↔ s.dpc ≠ .returned
   quiet : (s.dpc = .finalRecv ∨ s.dpc = .returned) → s.wg = 0
-  retNil : s.ret = some none → s.idx = cfg.jobs.length ∧ ∀ k w, s.workers[k]? = some w → w.failed = false
+  retNil : s.ret = some none → s.idx = cfg.jobs.length ∧ ∀ (k : Nat) (w : Worker), s.workers[k]? = some w → w.failed = false
   retErr : ∀ e, s.ret = some (some e) → e < s.idx ∧ cfg.jobFails e = true
 
 theorem inv_init (cfg : Cfg) : Inv cfg init := by
@@ -84,6 +84,7 @@ theorem inv_init (cfg : Cfg) : Inv cfg init := by
 
 theorem conc_pos (cfg : Cfg) : 1 ≤ conc expected cfg := by
   simp only [conc, expected]
-  split <;> simp <;> omega
+  simp only [if_true]
+  split <;> omega
 
 end AsyncPP
